@@ -162,8 +162,40 @@ static const char *fname(int fn) {
 /* Scenario run in a forked child (it fills the built-in collection): additions through the wrapper until the fixed capacity
  * is reached exercise the one error code that is neither INVALID_ARGUMENT nor MEMORY (RUNTIME -> std::runtime_error), plus the
  * duplicate path; after every wrapper call the C view (list length, retrievability) is compared. Lines "key\twhat" on fd. */
+/* Two results of the same wrapper IN USE AT ONCE, the first one bound to a const reference (`const auto &a = f(x); const auto &b = f(y);` - legal and
+ * common: a + b, two .c_str() in one printf): every result is an independent value, as the C function returns an independent object per call.  The
+ * first result is digested before and after the second call. */
+template <class F1, class F2, class D> static void two_alive(const char *name, F1 f1, F2 f2, D digest, const std::function<void(const std::string &, const std::string &)> &say) {
+  try {
+    const auto &a = f1(); std::string da = digest(a);
+    const auto &b = f2(); std::string db = digest(b), da2 = digest(a);
+    if (da != da2) say(std::string("c18:") + name + ":first-result-changes-when-the-wrapper-is-called-again", "the result of the first call read '" + da.substr(0, 60) + "' before and '" + da2.substr(0, 60) + "' after a second call (which returned '" + db.substr(0, 60) + "')");
+  } catch (...) { say(std::string("harness:two_alive:") + name, "unexpected exception"); }
+}
+static void scenario_two_alive(const std::function<void(const std::string &, const std::string &)> &say) {
+  auto vs = [](const std::vector<std::string> &v) { std::string s; for (auto &x : v) { s += x; s += '|'; } return s; };
+  auto vd = [](const std::vector<double> &v) { std::string s; char b[40]; for (double x : v) { snprintf(b, sizeof b, "%.17g,", x); s += b; } return s; };
+  auto vi = [](const std::vector<int> &v) { std::string s; for (int x : v) { s += std::to_string(x); s += ','; } return s; };
+  for (int k = 0; k < 6; k++) { int z1 = 26 + 7 * k, z2 = 8 + k;
+    two_alive("AtomicNumberToSymbol", [&] () -> decltype(xrlpp::AtomicNumberToSymbol(1)) { return xrlpp::AtomicNumberToSymbol(z1); }, [&] () -> decltype(xrlpp::AtomicNumberToSymbol(1)) { return xrlpp::AtomicNumberToSymbol(z2); }, [](const std::string &s) { return s; }, say); }
+  two_alive("CompoundParser", [] () -> decltype(xrlpp::CompoundParser("H2O")) { return xrlpp::CompoundParser("Ca5(PO4)3F"); }, [] () -> decltype(xrlpp::CompoundParser("H2O")) { return xrlpp::CompoundParser("SiO2"); },
+            [&](const xrlpp::compoundData &c) { return std::to_string(c.nElements) + ";" + vi(c.Elements) + vd(c.massFractions) + vd(c.nAtoms); }, say);
+  two_alive("GetCompoundDataNISTByIndex", [] () -> decltype(xrlpp::GetCompoundDataNISTByIndex(0)) { return xrlpp::GetCompoundDataNISTByIndex(5); }, [] () -> decltype(xrlpp::GetCompoundDataNISTByIndex(0)) { return xrlpp::GetCompoundDataNISTByIndex(177); },
+            [&](const xrlpp::compoundDataNIST &c) { return c.name + ";" + vi(c.Elements) + vd(c.massFractions) + std::to_string(c.density); }, say);
+  two_alive("GetCompoundDataNISTByName", [] () -> decltype(xrlpp::GetCompoundDataNISTByName("x")) { return xrlpp::GetCompoundDataNISTByName("Water, Liquid"); }, [] () -> decltype(xrlpp::GetCompoundDataNISTByName("x")) { return xrlpp::GetCompoundDataNISTByName("Kapton Polyimide Film"); },
+            [&](const xrlpp::compoundDataNIST &c) { return c.name + ";" + vi(c.Elements) + vd(c.massFractions); }, say);
+  two_alive("GetRadioNuclideDataByIndex", [] () -> decltype(xrlpp::GetRadioNuclideDataByIndex(0)) { return xrlpp::GetRadioNuclideDataByIndex(0); }, [] () -> decltype(xrlpp::GetRadioNuclideDataByIndex(0)) { return xrlpp::GetRadioNuclideDataByIndex(4); },
+            [&](const xrlpp::radioNuclideData &c) { return c.name + ";" + vi(c.XrayLines) + vd(c.XrayIntensities) + vd(c.GammaEnergies); }, say);
+  two_alive("Crystal::GetCrystal", [] () -> decltype(xrlpp::Crystal::GetCrystal("Si")) { return xrlpp::Crystal::GetCrystal("Si"); }, [] () -> decltype(xrlpp::Crystal::GetCrystal("Si")) { return xrlpp::Crystal::GetCrystal("AlphaQuartz"); },
+            [&](const xrlpp::Crystal::Struct &c) { char b[80]; snprintf(b, sizeof b, ";%.17g;%.17g;%d", c.a, c.volume, c.n_atom); return c.name + b; }, say);
+  two_alive("GetCompoundDataNISTList / GetRadioNuclideDataList", [] () -> decltype(xrlpp::GetCompoundDataNISTList()) { return xrlpp::GetCompoundDataNISTList(); }, [] () -> decltype(xrlpp::GetCompoundDataNISTList()) { return xrlpp::GetRadioNuclideDataList(); }, vs, say);
+  two_alive("Crystal::GetCrystalsList", [] () -> decltype(xrlpp::Crystal::GetCrystalsList()) { return xrlpp::Crystal::GetCrystalsList(); }, [] () -> decltype(xrlpp::Crystal::GetCrystalsList()) { return xrlpp::GetRadioNuclideDataList(); }, vs, say);
+  say("info2", "two_alive=14");
+}
+
 static void scenario_addcrystal(int fd) {
   auto say = [&](const std::string &k, const std::string &w) { std::string l = k + "\t" + w + "\n"; if (write(fd, l.c_str(), l.size()) < 0) {} };
+  scenario_two_alive(say);
   int n0 = 0; char **l0 = Crystal_GetCrystalsList(NULL, &n0, NULL); if (l0) { for (int k = 0; l0[k]; k++) xrlFree(l0[k]); xrlFree(l0); }
   xrlpp::Crystal::Struct base = xrlpp::Crystal::GetCrystal("Si");
   int accepted = 0, refused = 0;
@@ -326,6 +358,7 @@ int main(int argc, char **argv) {
       size_t p = 0; while (p < all.size()) { size_t q = all.find('\n', p); if (q == std::string::npos) q = all.size(); std::string line = all.substr(p, q - p); p = q + 1;
         size_t t = line.find('\t'); if (t == std::string::npos) continue; std::string k = line.substr(0, t), w = line.substr(t + 1);
         if (k == "info") { sscanf(w.c_str(), "accepted=%ld refused=%ld", &sc_accepted, &sc_refused); continue; }
+        if (k == "info2") continue;
         xv_req dummy; memset(&dummy, 0, sizeof dummy); dummy.fn = 2003; dummy.s = -1; V(k, w, &dummy); } } }
   FILE *o = fopen(argv[4], "w"); if (!o) return 2;
   auto js = [&](const std::string &s) { fputc('"', o); for (char ch : s) { unsigned char c = (unsigned char)ch; if (c == '"' || c == '\\') { fputc('\\', o); fputc(c, o); } else if (c < 32 || c > 126) fputc('?', o); else fputc(c, o); } fputc('"', o); };
